@@ -113,8 +113,11 @@ ReEnc(k, v, c) ==
     [] k = "nalu"   -> CNalBytes(c)
 
 \* ------------------------------------------------------------ transitions
-Values(k) == CASE k = "record" -> {r \in Records : ByteLen(RecEnc(r)) <= MaxBytes}
-               [] k = "sample" -> {s \in Samples : Fits(s) /\ ByteLen(SampleEnc(s)) <= MaxBytes}
+\* parameter sets carry a 16-bit length
+RecFits(r) == /\ \A i \in 1..Len(r.sps) : 1 + r.sps[i].n <= 65535
+              /\ \A i \in 1..Len(r.pps) : 1 + r.pps[i].n <= 65535
+Values(k) == CASE k = "record" -> {r \in Records : RecFits(r) /\ ByteLenCap(RecEnc(r), MaxBytes) <= MaxBytes}
+               [] k = "sample" -> {s \in Samples : Fits(s) /\ ByteLenCap(SampleEnc(s), MaxBytes) <= MaxBytes}
                [] k = "nalu"   -> NalUnits
 
 Init == /\ kind \in {"record", "sample", "nalu"}
